@@ -29,7 +29,15 @@ func c10(w *World) {
 	w.Cfg("buf", buf)
 	w.Cfg("hb", hb)
 	w.Cfg("mode", "resend")
-	sc := w.NewScript(ScriptCfg{Role: role, HandlerBuf: buf, ConnBuf: buf, HBMin: 1, HBMax: 60, HeartBtInt: hb, CloseTimeout: time.Second})
+	// a neighbour: a second logged-on session of the same acceptor that shares the store (as the
+	// repository's tests and examples wire it) and whose identifiers read the same as ours when written
+	// one after the other (LIB+PEER / LIBP+EER): its messages must never come back to us
+	neighbour := role == "acceptor" && w.W.Chance(1, 3)
+	cfg := ScriptCfg{Role: role, HandlerBuf: buf, ConnBuf: buf, HBMin: 1, HBMax: 60, HeartBtInt: hb, CloseTimeout: time.Second}
+	if neighbour {
+		w.Cfg("neighbour", true)
+	}
+	sc := w.NewScript(cfg)
 	sc.DoLogon(hb)
 	s := sc.Sess()
 	if s == nil || !s.IsLogged() {
@@ -60,6 +68,16 @@ func c10(w *World) {
 	if sc.P.EOF {
 		w.Inconclusive = "disconnected"
 		return
+	}
+	if neighbour {
+		nb := w.NewClient(sc.Acc, "neighbour", "EER", "LIBP")
+		nb.Step(nb.Msg("A", LogonFields(hb, "0", "", "")...))
+		for i := 0; i < 2+w.W.Draw(nOut+3); i++ {
+			nb.Step(nb.Msg("1", F(TagTestReqID, "nb"+itoa(i)))) // the acceptor answers each: numbers 2, 3, ... of the neighbour's own sequence
+		}
+		sc.P.Send(sc.Msg("0")) // keep our own link alive
+		sc.Settle()
+		w.Probe("neighbour_session_traffic")
 	}
 	// reference model: sequence number -> bytes of the first transmission
 	logOf := func() (map[int][]byte, int, bool) {
@@ -146,6 +164,20 @@ func c10(w *World) {
 			}
 		}
 		must := (b >= 1 && b <= last) && (e == 0 || (e >= b && e <= last))
+		if must && neighbour {
+			// with a shared counter the neighbour took some of the numbers: "the messages it originally
+			// sent under numbers b..e" is only defined where every number of the range was ours
+			hi := e
+			if e == 0 {
+				must = false // "the last message sent" is not defined per session once the counter is shared
+				hi = last
+			}
+			for n := b; n <= hi; n++ {
+				if _, ours := log[n]; !ours {
+					must = false
+				}
+			}
+		}
 		if must {
 			hi := e
 			if e == 0 {
